@@ -21,6 +21,7 @@ import (
 type cfgData struct {
 	prods     [][]string
 	closer    bool
+	closers2  bool // a second goroutine calls Close at the same time
 	canceller bool
 	// unlock: a scheduling point after every Unlock in this configuration
 	// (the window between "checked under the lock" and "started waiting")
@@ -92,6 +93,15 @@ func (harness) Configs(tier string) []xplore.Config {
 	for p := 1; p <= maxP; p++ {
 		multis(p, 0, nil)
 	}
+	// two goroutines closing at once (the server does: the ONCE goroutine and
+	// the deferred Close of the RPC) while producers insert
+	for _, prods := range [][][]string{{{"x"}}, {{"x", "y"}}, {{"x"}, {"y"}}, {{"x", "x"}, {"y"}}} {
+		var names []string
+		for _, s := range prods {
+			names = append(names, strings.Join(s, ""))
+		}
+		out = append(out, xplore.Config{Name: fmt.Sprintf("P=%s close=true x2 (two closers) cancel=false", strings.Join(names, "|")), Bound: bound, Data: cfgData{prods: prods, closer: true, closers2: true, unlock: true}})
+	}
 	// more distinct pending items than fit one hash-map bucket (8), then an
 	// item re-inserted after it was delivered while others are still pending
 	var many []string
@@ -125,7 +135,7 @@ func (harness) Run(cfg xplore.Config, ch vrt.Chooser, trace bool) (xplore.Outcom
 		q := coalesce.NewQueue()
 		ctx, cancel := vcontext.WithCancel(vcontext.Background())
 		nth := len(d.prods) + 1
-		logs := make([][]op, nth+3)
+		logs := make([][]op, nth+4)
 		var cancelInv int64 = -1
 		for i, s := range d.prods {
 			i, s := i, s
@@ -161,6 +171,14 @@ func (harness) Run(cfg xplore.Config, ch vrt.Chooser, trace bool) (xplore.Outcom
 				q.Close()
 				o.ret = vrt.Stamp()
 				logs[ci+1] = append(logs[ci+1], o)
+			})
+		}
+		if d.closers2 {
+			vrt.GoNamed("closer2", func() {
+				o := op{kind: "close", thread: ci + 3, inv: vrt.Stamp()}
+				q.Close()
+				o.ret = vrt.Stamp()
+				logs[ci+3] = append(logs[ci+3], o)
 			})
 		}
 		if d.canceller {
@@ -384,9 +402,17 @@ func linearizable(all []op) string {
 	}
 	var closeInv int64 = -1
 	var closeRet int64 = -1
+	// several goroutines may call Close: the queue is closed once ANY of them
+	// has returned, so the window in which an insertion may still slip in runs
+	// from the earliest invocation to the earliest return
 	for _, o := range all {
 		if o.kind == "close" {
-			closeInv, closeRet = o.inv, o.ret
+			if closeInv < 0 || o.inv < closeInv {
+				closeInv = o.inv
+			}
+			if closeRet < 0 || o.ret < closeRet {
+				closeRet = o.ret
+			}
 		}
 	}
 	seen := map[string]bool{}
